@@ -565,5 +565,6 @@ func init() {
 	runners["GUT"] = runGUT
 	runners["GWT"] = runGWT
 	runners["FLD"] = runFLD
+	runners["GFLD"] = runFLD // the same run, for Scan / UnmarshalJSON as translated (Gen/FieldRoutes.lean)
 	runners["FAM"] = runFAM
 }
